@@ -138,3 +138,61 @@ func hasArith(n *sexp) bool {
 	}
 	return false
 }
+
+// rebaseQuantifier: if the bound variable v occurs in index terms only as (+ B v) with one fixed B,
+// change variables to j = B + v so that the index terms become plain variables (good triggers).
+// Returns the new body, the new variable name and B ("" if no rewrite applies).
+func rebaseQuantifier(body string, v string, bv bool) (string, string, string) {
+	root := parseSexp(body)
+	if root == nil {
+		return body, v, ""
+	}
+	plus, minus := "+", "-"
+	if bv {
+		plus, minus = "bvadd", "bvsub"
+	}
+	bases := map[string]bool{}
+	var walk func(n *sexp)
+	walk = func(n *sexp) {
+		if n.kids == nil {
+			return
+		}
+		if len(n.kids) == 3 && n.kids[0].atom == plus && n.kids[2].atom == v {
+			qs := map[string]bool{}
+			n.kids[1].qvars(qs)
+			if len(qs) == 0 {
+				bases[n.kids[1].text] = true
+			}
+		}
+		for _, k := range n.kids {
+			walk(k)
+		}
+	}
+	walk(root)
+	if len(bases) != 1 {
+		return body, v, ""
+	}
+	var B string
+	for b := range bases {
+		B = b
+	}
+	j := v + "r"
+	body = strings.ReplaceAll(body, "("+plus+" "+B+" "+v+")", j)
+	// remaining occurrences of v as a whole token
+	var sb strings.Builder
+	for i := 0; i < len(body); {
+		if strings.HasPrefix(body[i:], v) {
+			end := i + len(v)
+			okL := i == 0 || body[i-1] == ' ' || body[i-1] == '('
+			okR := end >= len(body) || body[end] == ' ' || body[end] == ')'
+			if okL && okR {
+				sb.WriteString("(" + minus + " " + j + " " + B + ")")
+				i = end
+				continue
+			}
+		}
+		sb.WriteByte(body[i])
+		i++
+	}
+	return sb.String(), j, B
+}
